@@ -23,6 +23,33 @@ func checkC14(R *Run) {
 	R.rule("cursor", "(shared with C01) cursor protocol of Transaction.Read and Field.Read")
 	R.rule("layout", "(shared with C01) wire layout of Transaction and Field")
 
+	// ---- no-write-deadline: a write error on a client connection is only logged and the connection stays
+	// registered; that is sound only while a failed write means a dead connection.  A write deadline makes a write
+	// fail half-way on a connection that lives on, and the next transaction is appended to a partial one.
+	R.rule("no-write-deadline", "no code of the server sets a deadline that can interrupt a write on a client connection (SetWriteDeadline / SetDeadline, directly, through an interface or a type assertion): a transaction is either written whole or the connection is dead")
+	nDl := 0
+	for _, fn := range P.Funcs {
+		if fn.Pkg == nil || fn.Pkg.Pkg.Path() == cmdPath || isClientLibrary(fn) {
+			continue
+		}
+		for _, ci := range callsIn(fn) {
+			c := ci.Common()
+			name := ""
+			if c.IsInvoke() {
+				name = c.Method.Name()
+			} else if sf := c.StaticCallee(); sf != nil {
+				name = sf.Name()
+			}
+			if name == "SetWriteDeadline" || name == "SetDeadline" {
+				nDl++
+				R.bad("no-write-deadline", fmt.Sprintf("%s: %s #%d", fname(fn), name, nDl), P.ipos(ci), "a write deadline is set on a connection: a transaction to a slow client is cut off after a partial write while the connection stays open, so the next transaction is appended to the fragment and the client loses framing")
+			}
+		}
+	}
+	if nDl == 0 {
+		R.ok("no-write-deadline", "server packages", "-", "no SetWriteDeadline / SetDeadline call")
+	}
+
 	L := newLockInfo(P)
 	// ---- conn-write-lock
 	nW := 0
@@ -750,8 +777,24 @@ func checkC19(R *Run) {
 			ok = between
 		}
 		R.check(ok, "reload-section", it.fn, P.pos(fn.Pos()), "file read and assignment under one hold of the mutex", "the file is read outside the critical section in which the text is assigned: a post written in between is lost from memory (and from disk with the next post)")
+		// a reload that reports success has read the file and replaced the text: no shortcut (cached size, time
+		// stamp) decides that "nothing changed"
+		if rd != nil && st != nil {
+			always := true
+			where := ""
+			for _, must := range []ssa.Instruction{rd, st} {
+				m := must
+				if ok2, w, _ := successMustPass(fn, func(x ssa.Instruction) bool { return x == m }); !ok2 {
+					always = false
+					if w != nil {
+						where = P.ipos(w)
+					}
+				}
+			}
+			R.check(always, "reload-section", it.fn+": unconditional", P.pos(fn.Pos()), "every successful return has read the file and replaced the text", "Reload can report success without reading the file and replacing the text (return at "+where+"): clients keep being shown the old text although the file was replaced")
+		}
 	}
-	R.floor("reload-section", 2)
+	R.floor("reload-section", 4)
 
 	// post-format: the line-break conversion covers the user's text
 	R.rule("post-format", "what the post handler writes to the board, announces and stores is the result of replacing line feeds by carriage returns in the *formatted* post, i.e. the conversion's input contains the request's text")
@@ -828,18 +871,12 @@ func checkC18(R *Run) {
 		}
 		okAll := true
 		why := ""
-		nRet := 0
-		for _, ret := range returnsOf(fn) {
-			if len(ret.Block().Preds) == 0 && ret.Block() != fn.Blocks[0] {
-				continue
-			}
-			if !mayBeSuccessReturn(fn, ret) {
-				continue
-			}
-			nRet++
-			if !mustPassBefore(fn, ret, isWF) {
-				okAll = false
-				why = "a success return at " + P.ipos(ret) + " is reachable without writeFile"
+		passOK, w, nRet := successMustPass(fn, isWF)
+		if !passOK {
+			okAll = false
+			why = "a success return is reachable without writeFile"
+			if w != nil {
+				why = "a success return at " + P.ipos(w) + " is reachable without writeFile"
 			}
 		}
 		for _, ci := range callsIn(fn) {
@@ -893,6 +930,43 @@ func checkC18(R *Run) {
 		}
 	}
 	R.floor("news-lockset", 3)
+
+	// single-copy: what the store answers comes from the one tree that the mutators change and persist
+	R.rule("single-copy", "every value a method of the threaded news store returns is derived from the ThreadedNews tree (or from no store field at all), never from another field of the store: there is no second, separately invalidated copy (memo, cache, index) that can go stale when an ancestor bundle is deleted or the file is reloaded")
+	nReaders := 0
+	for _, fn := range P.Funcs {
+		if fn.Signature.Recv() == nil || len(fn.Params) == 0 || typeName(derefType(fn.Params[0].Type())) != "mobius.ThreadedNewsYAML" || fn.Parent() != nil {
+			continue
+		}
+		res := fn.Signature.Results()
+		for i := 0; i < res.Len(); i++ {
+			if isErrorType(res.At(i).Type()) {
+				continue
+			}
+			nReaders++
+			other := ""
+			for _, ret := range returnsOf(fn) {
+				if len(ret.Block().Preds) == 0 && ret.Block() != fn.Blocks[0] {
+					continue
+				}
+				P.reaches(retValue(ret, i), func(x ssa.Value) bool {
+					fa, ok := x.(*ssa.FieldAddr)
+					if !ok {
+						return false
+					}
+					f, _ := fieldOf(fa)
+					if strings.HasPrefix(f, "mobius.ThreadedNewsYAML.") && f != "mobius.ThreadedNewsYAML.ThreadedNews" {
+						other = f
+						return true
+					}
+					return false
+				})
+			}
+			R.analysed(fname(fn))
+			R.check(other == "", "single-copy", fmt.Sprintf("%s: result %d", fname(fn), i), P.pos(fn.Pos()), "derived from the tree only", "the result can come from "+other+", a second copy of the news data kept next to the tree: it is not what the mutators change, so it can show articles that were deleted with an enclosing bundle or before a reload")
+		}
+	}
+	R.floor("single-copy", 4)
 
 	// list-order
 	if fn := R.mustFn("(*hotline.NewsCategoryListData15).GetNewsArtListData"); fn != nil {
